@@ -34,7 +34,7 @@ class C02(Check):
     assumptions = ["messages are a seeded sample (the code is GF(2)-linear, so behaviour under an error pattern does not depend on the message if the "
                    "implementation is linear; that linearity is not proven here)",
                    "reserved bit R(3) (outside the 13x15 matrix, never decoded) is part of the error enumeration but not compared in the 'never altered' clause"]
-    exhaustive = {"quick": True, "thorough": True}
+    exhaustive = {}  # complete in the fault dimension per message, sampled in the message dimension: not claimed exhaustive
 
     def preload(self):
         import okdmr.dmrlib.etsi.fec.bptc_196_96  # noqa
